@@ -137,8 +137,7 @@ class Evaluator:
             return True
         if isinstance(e, ast.BinOp):
             a, b = self.ev(e.left), self.ev(e.right)
-            return self.prog.const_eval(ast.BinOp(left=ast.Constant(a), op=e.op, right=ast.Constant(b)), self.module) \
-                if _plain(a) and _plain(b) else _binop(e.op, a, b)
+            return _binop(e.op, a, b)
         if isinstance(e, (ast.Tuple, ast.List, ast.Set)):
             vals = [self.ev(x) for x in e.elts]
             return tuple(vals) if isinstance(e, ast.Tuple) else (list(vals) if isinstance(e, ast.List) else set(vals))
@@ -505,6 +504,15 @@ def _binop(op: ast.operator, a: Any, b: Any) -> Any:
             return a ^ b
         if isinstance(op, ast.Pow):
             return a ** b
+    except ZeroDivisionError:
+        raise Raised("ZeroDivisionError", ast.Constant(value=None))
+    except TypeError as ex:
+        # arithmetic on None / mismatched operands is what the analysed code would raise too
+        if a is None or b is None or isinstance(a, (int, float, str, bytes, list, tuple)) and isinstance(b, (int, float, str, bytes, list, tuple)):
+            raise Raised("TypeError", ast.Constant(value=None))
+        raise Unknown(str(ex))
+    except ValueError:
+        raise Raised("ValueError", ast.Constant(value=None))
     except Exception as ex:
         raise Unknown(str(ex))
     raise Unknown("binop")
